@@ -186,7 +186,7 @@ def job_primed(kind, n, states, depth2, faults=True):
                         core.guard(t, "C04", {"engine": "E2", "module": MOD, "part": "primed", "kind": kind, "n": n,
                                               "witness": [list(w) for w in witness], "primed": list(primed),
                                               "history": [list(o) for o in seq], "query_node": y},
-                                   run_primed, t, kind, n, witness, primed, seq, y)
+                                   run_primed, t, kind, n, witness, primed, seq, y, _limit=10)
         t.obs((kind, key, "primed", t.c["evaluations"]))
     return t
 
@@ -316,13 +316,13 @@ def job_states(kind, n, states, depth2):
         for op1 in ops1:
             t.c["transitions"] += 1
             core.guard(t, "C04", {"engine": "E2", "module": MOD, "part": "history", "kind": kind, "n": n,
-                                  "witness": [list(w) for w in witness], "history": [list(op1)]}, run_history, t, kind, n, witness, (op1,))
+                                  "witness": [list(w) for w in witness], "history": [list(op1)]}, run_history, t, kind, n, witness, (op1,), _limit=10)
             if depth2 and op1[0] != "setc":
                 for op2 in ops2:
                     t.c["transitions"] += 1
                     core.guard(t, "C04", {"engine": "E2", "module": MOD, "part": "history", "kind": kind, "n": n,
                                           "witness": [list(w) for w in witness], "history": [list(op1), list(op2)]},
-                               run_history, t, kind, n, witness, (op1, op2))
+                               run_history, t, kind, n, witness, (op1, op2), _limit=10)
         t.obs((kind, key, t.c["evaluations"]))
     if states:
         t.sample({"kind": kind, "witness": [list(w) for w in states[-1][2]], "then": "query all; op1; query all; op2; query all"}, cap=1)
@@ -355,7 +355,7 @@ def run(tier):
         pool.run([(MOD, "job_deep", {})], into=t)
         for lo, hi, triples in ((1, 5, True), (6, nmax, False)):
             shapes = tree.shapes_upto(hi, lo)
-            kinds = ("node", "user", "light", "anynode", "weird")
+            kinds = ("node", "user", "light", "anynode", "weird", "container", "falsylight")
             pool.run([(MOD, "job_shapes", {"shapes": c, "kinds": kinds, "triples": triples})
                       for c in core.chunks(shapes[::-1], core.NPROC * 4)], into=t)
             bounds.append({"part": "shapes", "nodes": [lo, hi], "shapes": len(shapes), "classes": kinds, "triples": triples})
